@@ -120,6 +120,14 @@ func runC03(c *Ctx) {
 		}
 	}
 	tw.Cfg.Hosts = append(hosts, p.AllowedHost, "second.test:3390")
+	// whether tokens are tied to the client address is independent of which host a token names
+	verifyIP := "default"
+	switch c.T.Weighted(4, 1, 1) {
+	case 1:
+		tw.Cfg.VerifyClientIP, verifyIP = env.Bool(false), "off"
+	case 2:
+		tw.Cfg.VerifyClientIP, verifyIP = env.Bool(true), "on"
+	}
 	if !BootTun(c, tw, false) {
 		return
 	}
@@ -141,8 +149,22 @@ func runC03(c *Ctx) {
 		if c.W.Host[wh] == nil {
 			c.W.AddHost(wh, [][]byte{[]byte("hello from " + wh)})
 		}
-		wp := &TunPlan{Name: "w0", Transport: []string{"ws", "legacy"}[c.T.Choose(2)], From: "10.1.9.9:41999", ConnID: fmt.Sprintf("{WARM-%d}", c.Res.Seed), User: wu, AllowedHost: wh, CloseAfter: -1}
+		wfrom := "10.1.9.9:41999"
+		sameUser := p.User != "" && c.T.Bool(1, 3)
+		if sameUser {
+			// the same user, signed in once (one access token), first connects to another of
+			// the hosts they may use: each tunnel is bound to the host of its own token
+			wu, wfrom = p.User, p.From
+			wh = []string{"second.test:3390", p.AllowedHost}[c.T.Choose(2)]
+			if c.W.Host[wh] == nil {
+				c.W.AddHost(wh, [][]byte{[]byte("hello from " + wh)})
+			}
+		}
+		wp := &TunPlan{Name: "w0", Transport: []string{"ws", "legacy"}[c.T.Choose(2)], From: wfrom, ConnID: fmt.Sprintf("{WARM-%d}", c.Res.Seed), User: wu, AllowedHost: wh, CloseAfter: -1}
 		wp.AccessToken = c.W.IdP.IssueAccessToken(wu)
+		if sameUser {
+			wp.AccessToken = p.AccessToken
+		}
 		wp.Pkts = []CPkt{PHandshake(tw.MC.ServerCaps, 1, 0), PTunnelCreate(ValidCookie(c, tw, wp, wh), true), PTunnelAuth("w"), PChannel(wh, HostAllowed), PData([]byte("warm")), PClose()}
 		wt := StartTunnels(c, []*TunPlan{wp})
 		RunTunnels(c, wt, 2000)
@@ -154,7 +176,7 @@ func runC03(c *Ctx) {
 		}
 		wt[0].Client.CloseAll(false)
 		c.S.Run(nil, 200, time.Second)
-		warm = fmt.Sprintf(" after user1 opened %q;", wh)
+		warm = fmt.Sprintf(" after %s opened %q;", wu, wh)
 	}
 	dialsBefore := len(c.S.DialLog)
 	connsBefore := map[string]int{}
@@ -205,15 +227,35 @@ func runC03(c *Ctx) {
 		cc,
 		PData(payload),
 	}
-	tw.Tuns = StartTunnels(c, tw.Plans)
-	RunTunnels(c, tw.Tuns, 2000)
+	// concurrency: another user opens a channel to their own entry while this tunnel is being
+	// set up (per-user substitution must not leak between requests that overlap)
+	plans := tw.Plans
+	var cp *TunPlan
+	if placeholder && other != "" && (mode == "roundrobin" || mode == "unsigned") && c.T.Bool(1, 2) {
+		cp = &TunPlan{Name: "c0", Transport: []string{"ws", "legacy"}[c.T.Choose(2)], From: "10.1.9.8:41998", ConnID: fmt.Sprintf("{COMP-%d}", c.Res.Seed), User: "user1", AllowedHost: other, CloseAfter: -1}
+		cp.AccessToken = c.W.IdP.IssueAccessToken("user1")
+		cp.Pkts = []CPkt{PHandshake(tw.MC.ServerCaps, 1, 0), PTunnelCreate(ValidCookie(c, tw, cp, other), true), PTunnelAuth("c"), PChannel(other, HostAllowed), PData([]byte("companion"))}
+		plans = append(plans, cp)
+		warm += " while user1 opens " + other + ";"
+		c.S.Count("probe.concurrent_other_user")
+	}
+	tw.Tuns = StartTunnels(c, plans)
+	RunTunnels(c, tw.Tuns, 3000)
 	t := tw.Tuns[0]
-	if t.Client.Failed != "" || t.Err != "" {
-		c.Infra("transport setup failed: %s %s", t.Client.Failed, t.Err)
-		return
+	for _, x := range tw.Tuns {
+		if x.Client.Failed != "" || x.Err != "" {
+			c.Infra("transport setup failed: %s %s", x.Client.Failed, x.Err)
+			return
+		}
 	}
 	// the dial log of the whole run: every dial must be the authorised request, verbatim
+	// (plus the one dial of the concurrent user to their own entry)
+	compDials := 0
 	for _, d := range c.S.DialLog[dialsBefore:] {
+		if cp != nil && d.To == other && compDials == 0 {
+			compDials++
+			continue
+		}
 		if !authorised {
 			c.S.Fail("C03", "dial-unauthorised-host", "mode=%s user=%q token-host=%q request{%s %q}: refused by policy, yet the gateway dialed %q", mode, p.User, tokenHost, req.kind, req.key, d.To)
 			break
@@ -226,7 +268,11 @@ func runC03(c *Ctx) {
 	if c.S.Viol == nil {
 		// hosts other than the authorised one must have seen nothing
 		for addr, h := range c.W.Host {
-			if len(h.Conns) > connsBefore[addr] && !(authorised && addr == req.key) {
+			extra := 0
+			if cp != nil && addr == other {
+				extra = 1
+			}
+			if len(h.Conns) > connsBefore[addr]+extra && !(authorised && addr == req.key) {
 				c.S.Fail("C03", "connection-to-unrequested-host", "host %q accepted a connection; authorised=%v request=%q", addr, authorised, req.key)
 			}
 		}
@@ -244,8 +290,8 @@ func runC03(c *Ctx) {
 		}
 		if c.S.Viol == nil && authorised {
 			c.S.Count("probe.authorised_channel")
-			if len(c.S.DialLog)-dialsBefore != 1 {
-				c.S.Fail("C03", "no-dial-for-authorised", "request %q is authorised but %d dials were made", req.key, len(c.S.DialLog)-dialsBefore)
+			if len(c.S.DialLog)-dialsBefore-compDials != 1 {
+				c.S.Fail("C03", "no-dial-for-authorised", "request %q is authorised but %d dials were made", req.key, len(c.S.DialLog)-dialsBefore-compDials)
 			}
 		}
 		if c.S.Viol == nil && !authorised {
@@ -254,6 +300,6 @@ func runC03(c *Ctx) {
 		_ = v
 	}
 	c.Res.Reach = len(t.Client.Sent) >= 4
-	c.Samplef("%s%s mode=%s hosts=%v user=%q token-host=%q request{%s raw=%s declared=%d port=%d key=%q} authorised=%v dials=%d events=%s",
-		p.Transport, warm, mode, tw.Cfg.Hosts, p.User, tokenHost, req.kind, short(req.name), req.declared, req.port, req.key, authorised, len(c.S.DialLog), t.Client.Describe())
+	c.Samplef("%s%s verifyclientip=%s mode=%s hosts=%v user=%q token-host=%q request{%s raw=%s declared=%d port=%d key=%q} authorised=%v dials=%d events=%s",
+		p.Transport, warm, verifyIP, mode, tw.Cfg.Hosts, p.User, tokenHost, req.kind, short(req.name), req.declared, req.port, req.key, authorised, len(c.S.DialLog), t.Client.Describe())
 }
